@@ -83,6 +83,19 @@ def check(idx: Index, rep: Report, tier: str) -> str:
         else:
             r1.ok(c.fq, f"{c.loc} eq/hash override pair on one key {fields}")
 
+    # ---- R1b: fields are declared on dataclass-processed classes only
+    r1b = rep.rule("C08.R1b", "an Attribute subclass that declares parameter fields is itself processed by dataclass / irdl_attr_definition: the dataclass machinery collects fields only from bases that are dataclasses, so fields declared on an undecorated intermediate base are left out of the generated __eq__ / __hash__ of every derived attribute", floor=100)
+    for c in subs:
+        anns = [n for n in c.node.body if isinstance(n, ast.AnnAssign) and isinstance(n.target, ast.Name) and "ClassVar" not in unparse(n.annotation) and n.target.id != "name"]
+        if not anns:
+            continue
+        decs = c.decorator_names()
+        if any(d.endswith("irdl_attr_definition") or d.endswith("dataclass") for d in decs):
+            r1b.ok(c.fq, None)
+        else:
+            derived = [d_.name for d_ in subs if d_ is not c and idx.is_subclass(d_, c.fq)]
+            r1b.fail(c.fq, Finding("C08.R1b", c.fq, f"fields-outside-dataclass:{c.name}", f"{c.name} declares {[n.target.id for n in anns]} but is not a dataclass (no @dataclass / @irdl_attr_definition): the generated __eq__ / __hash__ of its subclasses {derived[:4]} do not include these fields, so attributes that differ only in them compare equal", c.loc))
+
     # ---- R2: Data[T] payload types are immutable / hashable
     r2 = rep.rule("C08.R2", "payload types of Data[...] attributes are immutable and hashable (no list / dict / set; classes are Enums or frozen dataclasses)", floor=20)
     for c in subs:
